@@ -8,6 +8,10 @@ from typing import Any, Dict, List, Optional, Sequence, Tuple
 from mc import cli, gen, harness
 
 
+class TraceUnreadable(Exception):
+    """The run was performed, but what it left on disk cannot be read back as JSON lines."""
+
+
 def traced_single(prog: Sequence[str], dkind: str, ctx: Dict[str, Any], detail: str = "hash", mode: str = "file",
                   scratch: Optional[str] = None, pipeline=None):
     """Run one traced pipeline; returns (records in emission order, files, RealOutcome, pipeline)."""
@@ -24,7 +28,10 @@ def traced_single(prog: Sequence[str], dkind: str, ctx: Dict[str, Any], detail: 
     else:
         pipeline.trace = driver
     real = harness.run_pipeline(pipeline, gen.make_data(dkind), ctx, None)
-    records, files = cli.collect_trace(tpath)
+    try:
+        records, files = cli.collect_trace(tpath)
+    except Exception as exc:  # noqa: BLE001 - a corrupt trace is an observation, not a loader refusal
+        raise TraceUnreadable(f"{type(exc).__name__}: {str(exc)[:200]}") from exc
     return records, files, real, pipeline, driver
 
 
